@@ -393,6 +393,12 @@ pub struct Gen {
 	/// (momentum oscillators swing from one extreme zone to the other on consecutive bars)
 	burst_left: u8,
 	burst_amp: f64,
+	/// range regimes: stretches on an exact tick grid with equal-size candles in a steady trend that flips now and then, and
+	/// quiet stretches (all moves shrunk 50-fold) between volatile ones
+	grid_left: u32,
+	grid_dir: f64,
+	grid_tick: f64,
+	quiet: bool,
 	calls: u64,
 	pub rng: Rng,
 	scale: f64,
@@ -407,7 +413,7 @@ impl Gen {
 		let scale = *rng.pick(&[1e-3, 0.37, 1.0, 12.5, 100.0, 3e4]);
 		let cur = scale * (0.5 + rng.unit());
 		let shape = rng.below(8);
-		Self { no_zero_volume: false, no_plateau: false, force_drop_at: None, droughts: false, drought_left: 0, long_regimes: false, regime_left: 0, one_sided: false, side: 0, burst_left: 0, burst_amp: 0.0, calls: 0, rng, scale, cur, shape, positive }
+		Self { no_zero_volume: false, no_plateau: false, force_drop_at: None, droughts: false, drought_left: 0, long_regimes: false, regime_left: 0, one_sided: false, side: 0, burst_left: 0, burst_amp: 0.0, grid_left: 0, grid_dir: 1.0, grid_tick: 0.0, quiet: false, calls: 0, rng, scale, cur, shape, positive }
 	}
 	fn finish(&mut self, mut v: f64) -> f64 {
 		if self.positive {
@@ -515,6 +521,37 @@ impl Gen {
 		};
 		let mut close = close;
 		let (mut open, mut high, mut low) = (open, high, low);
+		if self.one_sided {
+			if self.grid_left == 0 && self.rng.chance(0.02) {
+				self.grid_left = 30 + self.rng.below(60) as u32;
+				self.grid_dir = if self.rng.chance(0.5) { 1.0 } else { -1.0 };
+				self.grid_tick = 2f64.powi((prev * 0.004).log2().floor() as i32);
+			}
+			if self.rng.chance(0.02) {
+				self.quiet = !self.quiet;
+			}
+			if self.grid_left > 0 {
+				self.grid_left -= 1;
+				let t = self.grid_tick;
+				if self.rng.chance(0.06) {
+					self.grid_dir = -self.grid_dir;
+				}
+				let base = (prev / t).round() * t;
+				open = base;
+				close = (base + self.grid_dir * t).max(2.0 * t);
+				high = open.max(close) + t;
+				low = (open.min(close) - t).max(t * 0.5);
+				self.cur = close;
+				return candle(open, high, low, close, volume);
+			}
+			if self.quiet {
+				let q = |x: f64| prev + (x - prev) * 0.02;
+				open = q(open);
+				high = q(high);
+				low = q(low);
+				close = q(close);
+			}
+		}
 		if self.one_sided && self.rng.chance(0.03) {
 			// a bar whose range is only a few ulps (valid: low <= open, close <= high)
 			let ulps = 1 + self.rng.below(7);
